@@ -176,6 +176,64 @@ fn main() {
             });
         }
     }
+    // partial mocks: a deviating ordered call must panic as well, even when the method has a real
+    // function to fall back to (fall-through is for methods *without* an applicable ordered slot
+    // only in the unordered sense - C07)
+    let real_alphabet = vec![
+        Call::new(M::Unm, 0),
+        Call::new(M::Unm, 1),
+        Call::new(M::Both, 0),
+        Call::new(M::A, 0),
+    ];
+    let real_clauses = |pos: usize| -> Vec<(String, ClauseSpec)> {
+        let mut out = vec![];
+        for m in [M::Unm, M::Both] {
+            for mask in [7u8, 1] {
+                for (label, segs) in count_forms(100 * (pos as u32 + 1), false) {
+                    out.push((
+                        format!("{}[{mask}]{label}", m.name()),
+                        ClauseSpec::Single {
+                            m,
+                            entry: Entry::NextCall,
+                            pat: PatSpec { mask, segs },
+                        },
+                    ));
+                }
+            }
+        }
+        out
+    };
+    for partial in [true, false] {
+        for (l0, c0) in real_clauses(0) {
+            cases.push(Case {
+                label: format!("realfn/{}/{l0}", if partial { "partial" } else { "strict" }),
+                config: Config {
+                    partial,
+                    clauses: vec![c0.clone()],
+                },
+                histories: HistGen::AcceptedPrefixes {
+                    alphabet: real_alphabet.clone(),
+                    max_depth: 4,
+                },
+            });
+            for (l1, c1) in real_clauses(1) {
+                if quick && !l1.contains("once") {
+                    continue;
+                }
+                cases.push(Case {
+                    label: format!("realfn/{}/{l0},{l1}", if partial { "partial" } else { "strict" }),
+                    config: Config {
+                        partial,
+                        clauses: vec![c0.clone(), c1, unordered_clause()],
+                    },
+                    histories: HistGen::AcceptedPrefixes {
+                        alphabet: real_alphabet.clone(),
+                        max_depth: if quick { 4 } else { 5 },
+                    },
+                });
+            }
+        }
+    }
     ctx.watchdog(120, || J::Str("no progress in the C04 explorer".into()));
     let stats = explore_cases(ctx, &cases, opts, &c04_extra);
     guard(&stats, 5, true);
